@@ -82,6 +82,11 @@ class resp_fb(FeedbackResponse):
 class notemplate_fb(Feedback):
     title = "Bare"
 
+class const_fb(Feedback):
+    title = "WithConstants"
+    constant_fields = {"hint": "fixed hint"}
+    message_template = "v {value} / {hint}"
+
 class group_fb(FeedbackGroup):
     title = "Group"
     message = "a group"
@@ -113,9 +118,9 @@ class Field:
 '''
 
 CALLBACKS = {'condition', '_get_message', 'name', 'line', 'python_value', '__str__'}
-ZOO_CLASSES = ['cond_fb', 'child_fb', 'grandchild_fb', 'msg_fb', 'else_fb', 'resp_fb', 'notemplate_fb', 'group_fb']
+ZOO_CLASSES = ['cond_fb', 'child_fb', 'grandchild_fb', 'msg_fb', 'else_fb', 'resp_fb', 'notemplate_fb', 'const_fb', 'group_fb']
 CORE_CLASSES = ['gently', 'explain', 'compliment', 'give_partial', 'guidance', 'set_correct', 'system_error', 'Feedback']
-ATTRS = ['title', 'message', 'message_template', 'else_message', 'else_message_template', 'category', 'kind', 'priority',
+ATTRS = ['constant_fields', 'fields', 'title', 'message', 'message_template', 'else_message', 'else_message_template', 'category', 'kind', 'priority',
          'justification', 'justification_template', 'muted', 'unscored', 'score', 'correct', 'valence', 'label']
 FAULT_CLASSES = faults.ORDINARY + faults.BROKEN
 OUTCOMES = ['True', 'False', 'None', '0', '1', '5', "''", "'yes'", '[]', '[0]', '{}', '0.0', '-1']
@@ -546,6 +551,11 @@ def judge(spec, res):
                 overridden.clear()
         if o.get('duplicates'):
             viol('recorded-more-than-once', 'a feedback object appears %d extra time(s) in the report lists' % o['duplicates'])
+            return vs
+        shared = [(n, a) for (n, a) in o.get('class_diff', []) if a in ('constant_fields', 'fields')]
+        if shared:
+            # nothing an instance does may write into its CLASS's field tables (override() does not touch them here)
+            viol('instance-wrote-into-class-level-fields', 'after op %d: %s changed' % (o['index'], shared[:3]))
             return vs
     return vs
 
